@@ -204,9 +204,30 @@ pub struct Genuine {
     pub retry_after: Vec<Vec<u8>>,
 }
 
+/// The op log with the simulated clock reading at every entry.
+#[derive(Default, Clone)]
+pub struct Log {
+    pub ops: Vec<Op>,
+    /// (wall ns, mono ns) when the entry was appended
+    pub stamps: Vec<(i128, i128)>,
+    pub now: (i128, i128),
+}
+impl Log {
+    pub fn push(&mut self, op: Op) {
+        self.ops.push(op);
+        self.stamps.push(self.now);
+    }
+}
+impl std::ops::Deref for Log {
+    type Target = Vec<Op>;
+    fn deref(&self) -> &Vec<Op> {
+        &self.ops
+    }
+}
+
 pub struct World {
     pub script: Script,
-    pub log: Vec<Op>,
+    pub log: Log,
     pub wall_ns: i128,
     pub mono_ns: i128,
     pub gates: Vec<Gate>,
@@ -232,8 +253,8 @@ impl World {
         World {
             wall_ns: script.start_wall_ns,
             mono_ns: 0,
+            log: Log { ops: vec![], stamps: vec![], now: (script.start_wall_ns, 0) },
             script,
-            log: vec![],
             gates: vec![],
             eager: true,
             interactions: 0,
@@ -268,6 +289,7 @@ impl World {
             }
             self.mono_ns += step.advance_ns as i128;
             self.wall_ns += step.advance_ns as i128;
+            self.log.now = (self.wall_ns, self.mono_ns);
             if step.wall_jump.is_some() {
                 self.log.push(Op::Clock { wall: self.wall_ns, mono: self.mono_ns });
             }
@@ -298,6 +320,7 @@ pub fn open_gate(w: &W, id: usize) {
                 let adv = d.min(Duration::from_secs(86_400)).as_nanos() as i128;
                 g.mono_ns += adv;
                 g.wall_ns += adv;
+                g.log.now = (g.wall_ns, g.mono_ns);
             }
             _ => {}
         }
